@@ -141,6 +141,28 @@ class NpProxy:
             return SymArray(_obj(x))
         return _np.asarray(x, *a, **kw)
 
+    def vectorize(self, pyfunc, otypes=None, **kw):
+        """np.vectorize: the Python function is applied element by element; WITHOUT otypes the dtype of the result is that of the
+        first element's result - an integer first result makes every later result an integer (truncated)"""
+        real = _np.vectorize(pyfunc, otypes=otypes, **kw)
+
+        def call(*args):
+            if not any(_has_sym(a) for a in args):
+                return real(*args)
+            bs = _np.broadcast_arrays(*[_obj(a) for a in args])
+            out = _np.empty(bs[0].shape, dtype=object)
+            first_int = None
+            for idx in _np.ndindex(*out.shape):
+                r = pyfunc(*[core._unwrap0(b[idx]) for b in bs])
+                if isinstance(r, (SymArray, _np.ndarray)):
+                    r = core._unwrap0(r)
+                if first_int is None:
+                    first_int = otypes is None and isinstance(r, (int, _np.integer)) and not isinstance(r, (bool, _np.bool_))
+                out[idx] = core._trunc_int(r) if first_int else tf(r)
+            return SymArray(out)
+
+        return call
+
     def isscalar(self, x):
         # symbolic scalars stand for Python floats / NumPy scalars (np.isscalar is True for both); 0-d arrays are not scalars
         if isinstance(x, (SymFloat, SymInt, SymBool)):
